@@ -1,5 +1,47 @@
-(* C16 — placeholder until the lemmas are proved (replaced below in this session). *)
-From Ebml Require Import Base Tools.
+(* C16 — fixed-width payload decoders are total and invert the writer's encodings.
+   Statements only; every proof is [exact <lemma of Proofs/DecodersProofs>]. *)
+From Ebml Require Import Base Tools Spec Writer Proofs.Tactics Proofs.BytesProofs Proofs.DecodersProofs.
+
+(* unsigned: big-endian value for lengths 0-8 (the empty slice is 0), an error beyond *)
+Theorem C16_u64_value : forall a, (length a <= 8)%nat -> arr_to_u64 a = Ok (from_be a).
+Proof. exact arr_to_u64_ok. Qed.
+Theorem C16_u64_error : forall a, (8 < length a)%nat -> arr_to_u64 a = Err (ReadU64Overflow a).
+Proof. exact arr_to_u64_err. Qed.
+
+(* signed: two's complement, sign-extended from the slice length; the empty slice is 0 *)
+Theorem C16_i64_value : forall a, wf_bytes a -> (length a <= 8)%nat -> arr_to_i64 a = Ok (sext_bytes a).
+Proof. exact arr_to_i64_ok. Qed.
+Theorem C16_i64_error : forall a, (8 < length a)%nat -> arr_to_i64 a = Err (ReadI64Overflow a).
+Proof. exact arr_to_i64_err. Qed.
+
+(* float: the 8-byte pattern as is, the 4-byte pattern widened, an error for every other length *)
+Theorem C16_f64_8 : forall a, length a = 8%nat -> arr_to_f64 a = Ok (from_be a).
+Proof. exact arr_to_f64_8. Qed.
+Theorem C16_f64_4 : forall a, length a = 4%nat -> arr_to_f64 a = Ok (widen32 (from_be a)).
+Proof. exact arr_to_f64_4. Qed.
+Theorem C16_f64_error : forall a, length a <> 4%nat -> length a <> 8%nat -> arr_to_f64 a = Err (ReadF64Mismatch a).
+Proof. exact arr_to_f64_err. Qed.
+
+(* none of them panics, on any slice *)
+Theorem C16_total : forall a, arr_to_u64 a <> Panic /\ arr_to_i64 a <> Panic /\ arr_to_f64 a <> Panic.
+Proof. exact decoders_total. Qed.
+
+(* they invert the writer's payload encoders (Writer.write_element): every u64 / i64 / f64 decodes to the identical
+   value from a payload of the minimal 1/2/4/8-byte width *)
+Theorem C16_writer_uint : forall v, v < 2 ^ 64 ->
+  arr_to_u64 (be_bytes (uint_width v) v) = Ok v /\ length (be_bytes (uint_width v) v) = uint_width v.
+Proof. exact writer_uint_inverted. Qed.
+Theorem C16_writer_uint_minimal : forall v w, (w = 1 \/ w = 2 \/ w = 4 \/ w = 8)%nat -> v < 256 ^ N.of_nat w -> (uint_width v <= w)%nat.
+Proof. exact uint_width_minimal. Qed.
+Theorem C16_writer_sint : forall z, (- 2 ^ 63 <= z < 2 ^ 63)%Z ->
+  arr_to_i64 (be_bytes (sint_width z) (to_u64 z)) = Ok z /\ length (be_bytes (sint_width z) (to_u64 z)) = sint_width z.
+Proof. exact writer_sint_inverted. Qed.
+Theorem C16_writer_float : forall bits, bits < 2 ^ 64 -> arr_to_f64 (be_bytes 8 bits) = Ok bits.
+Proof. exact writer_float_inverted. Qed.
+
+(* the writer really emits these payloads: a concrete element write *)
 Example C16_ex : arr_to_u64 [] = Ok 0 /\ arr_to_i64 [] = Ok 0%Z /\ arr_to_i64 [255; 56] = Ok (-200)%Z
-  /\ arr_to_f64 [63; 192; 0; 0] = Ok 4609434218613702656 /\ arr_to_u64 [1;2;3;4;5;6;7;8;9] = Err (ReadU64Overflow [1;2;3;4;5;6;7;8;9]).
+  /\ arr_to_f64 [63; 192; 0; 0] = Ok 4609434218613702656 /\ arr_to_u64 [1;2;3;4;5;6;7;8;9] = Err (ReadU64Overflow [1;2;3;4;5;6;7;8;9])
+  /\ write_element (w_init []) 130 (Some DSInt) (VI (-200)) 0 =
+       ({| w_open := []; w_buf := [130; 130; 255; 56]; w_dest := []; w_script := [] |}, WOk).
 Proof. vm_compute. repeat split; reflexivity. Qed.
